@@ -18,6 +18,7 @@ Reset(ev) ==
 Skipped(ev) ==
   LET h == ev.arg.h IN
   /\ CASE ev.a = "ielem"    -> Shared(h) \/ ev.arg.pos >= Used(h)
+       [] ev.a = "ctor"     -> ~IsNull(h)
        [] ev.a = "cfgdel"   -> Shared(h)
        [] ev.a = "cmdset"   -> Shared(h) \/ (ev.arg.tok # 0 /\ cnt[ev.arg.tok] # 0)
        [] ev.a = "cmdclear" -> Shared(h) \/ IsNull(h)
@@ -46,6 +47,7 @@ Step(ev) ==
     [] ev.a = "iset"     -> ISet(g.h, g.pos, g.o, g.n)
     [] ev.a = "ielem"    -> IElem(g.h, g.pos, g.o)
     [] ev.a = "icompact" -> ICompact(g.h)
+    [] ev.a = "ctor"     -> UCtor(g.h, g.len)
     [] ev.a = "resize"   -> UResize(g.h, g.len)
     [] ev.a = "reserve"  -> UReserve(g.h, g.len)
     [] ev.a \in {"gappend", "gadd"} -> GAppend(ev.a, g.h, g.o, g.n)
